@@ -13,6 +13,12 @@ import ast
 import os
 
 ENTRY = ["parse", "parse_mysql", "parse_sqlserver", "parse_bigquery"]
+LOCKS = {"parse_locker"}        # names of the module lock (re-read from the source by `extract`)
+ALIASES = {"_utils", "utils"}   # local names of the utils module (re-read from the source by `extract`)
+
+
+def _is_lock_with(w):
+    return isinstance(w, ast.With) and any(isinstance(i.context_expr, ast.Name) and i.context_expr.id in LOCKS for i in w.items)
 HELPERS = ["_parse", "_get_or_create_parser"]
 
 
@@ -114,7 +120,7 @@ class Lin(ast.NodeVisitor):
             self.generic_visit(n)
 
     def visit_With(self, n):
-        locked = any(isinstance(i.context_expr, ast.Name) and i.context_expr.id == "parse_locker" for i in n.items)
+        locked = _is_lock_with(n)
         for i in n.items:
             self.visit(i.context_expr)
         if locked:
@@ -191,8 +197,38 @@ def extract(X, repo):
         X.problem("effects", "mo_sql_parsing/__init__.py not found")
         return
     funcs = {f.name: f for f in init.body if isinstance(f, ast.FunctionDef)}
-    # ---- parse-scoped globals: attributes of the utils alias assigned in __init__
+    # ---- the module lock and the local name of the utils module, as the source has them: `X = Lock()` at module level of
+    #      __init__ (and whatever name other modules import it under), `import … utils as Y`
+    LOCKS.clear()
+    for st in init.body:
+        if isinstance(st, ast.Assign) and isinstance(st.value, ast.Call):
+            fn_ = st.value.func
+            nm = fn_.id if isinstance(fn_, ast.Name) else (fn_.attr if isinstance(fn_, ast.Attribute) else "")
+            if nm in ("Lock", "RLock"):
+                for t in st.targets:
+                    if isinstance(t, ast.Name):
+                        LOCKS.add(t.id)
+    for tr in trees.values():
+        for n in ast.walk(tr):
+            if isinstance(n, ast.ImportFrom) and (n.module or "").startswith("mo_sql_parsing"):
+                for a in n.names:
+                    if a.name in LOCKS and a.asname:
+                        LOCKS.add(a.asname)
+    if not LOCKS:
+        X.problem("effects", "no module-level Lock() found in __init__.py")
     alias = "_utils"
+    for n in ast.walk(init):
+        if isinstance(n, ast.ImportFrom) and (n.module or "") == "mo_sql_parsing":
+            for a in n.names:
+                if a.name == "utils":
+                    alias = a.asname or a.name
+        elif isinstance(n, ast.Import):
+            for a in n.names:
+                if a.name == "mo_sql_parsing.utils" and a.asname:
+                    alias = a.asname
+    ALIASES.clear()
+    ALIASES.update({alias, "utils", "_utils"})
+    # ---- parse-scoped globals: attributes of the utils alias assigned in __init__
     scoped = []
     for n in ast.walk(init):
         if isinstance(n, ast.Assign):
@@ -212,17 +248,19 @@ def extract(X, repo):
             for n in ast.walk(f):
                 if isinstance(n, ast.Global):
                     for g in n.names:
+                        if mod == "__init__" and g == alias:
+                            g = "_utils"        # the lazily imported utils module, under whatever local name
                         if (mod, g) not in global_rebinds:
                             global_rebinds.append((mod, g))
                 if mod == "utils" and isinstance(n, ast.Name) and isinstance(n.ctx, ast.Load) and n.id in scoped:
                     read_by.setdefault(n.id, set()).add("%s.%s" % (mod, fname))
-                if isinstance(n, ast.Attribute) and isinstance(n.ctx, ast.Load) and n.attr in scoped and isinstance(n.value, ast.Name) and n.value.id in ("utils", "_utils"):
+                if isinstance(n, ast.Attribute) and isinstance(n.ctx, ast.Load) and n.attr in scoped and isinstance(n.value, ast.Name) and n.value.id in ALIASES:
                     if not (mod == "__init__"):
                         read_by.setdefault(n.attr, set()).add("%s.%s" % (mod, fname))
                 if isinstance(n, ast.Assign):
                     for t in n.targets:
-                        if isinstance(t, ast.Attribute) and isinstance(t.value, ast.Name) and t.value.id in ("utils", "_utils", "sql_parser", "keywords", "types", "formatting", "windows"):
-                            item = "%s.%s:=%s.%s" % (mod, fname, t.value.id, t.attr)
+                        if isinstance(t, ast.Attribute) and isinstance(t.value, ast.Name) and t.value.id in ALIASES | {"sql_parser", "keywords", "types", "formatting", "windows"}:
+                            item = "%s.%s:=%s.%s" % (mod, fname, "_utils" if t.value.id == alias else t.value.id, t.attr)
                             if (mod, fname, t.value.id, t.attr, item) not in written_raw:
                                 written_raw.append((mod, fname, t.value.id, t.attr, item))
     matcher_reads = [g for g in scoped if any(not r.startswith("formatting.") for r in read_by.get(g, ()))]
@@ -262,7 +300,7 @@ def extract(X, repo):
     def locked_node_ids(fn):
         ids = set()
         for w in ast.walk(fn):
-            if isinstance(w, ast.With) and any(isinstance(i.context_expr, ast.Name) and i.context_expr.id == "parse_locker" for i in w.items):
+            if _is_lock_with(w):
                 for n in ast.walk(w):
                     ids.add(id(n))
         return ids
@@ -364,7 +402,7 @@ def extract(X, repo):
                 continue
             locked_nodes = set()
             for w in ast.walk(f):
-                if isinstance(w, ast.With) and any(isinstance(i.context_expr, ast.Name) and i.context_expr.id == "parse_locker" for i in w.items):
+                if _is_lock_with(w):
                     for n in ast.walk(w):
                         locked_nodes.add(id(n))
             for n in ast.walk(f):
